@@ -161,33 +161,7 @@ def check(run: Run) -> None:
     _check_find_keyword(run, m, mod)
 
     # ---------------- R3 patch-back
-    fx_fn = m.find_func("fixup_ast_from_modifications", in_module=mod)
-    from ..lib import used_visitor
-
-    fixers = [c for c in [used_visitor(m, ctx, fx_fn)] if "visit_Call" in c.methods]
-    if len(fixers) != 1:
-        raise AnalysisError("fixup_ast_from_modifications no longer contains one visitor with visit_Call")
-    vc = fixers[0].methods["visit_Call"]
-    fv = ctx.analysis(vc)
-    nodep = ("param", vc.pos_params[1])
-    old = ("attr", nodep, "_old_ast")
-    stores = {}
-    for n in own_nodes(vc):
-        if isinstance(n, ast.Assign) and isinstance(n.targets[0], ast.Attribute) and fv.cfg.has_node(n):
-            tt = strip_sites(fv.term_of(n.targets[0].value))
-            tt = tt[1] if tt[0] == "upd" else tt
-            if old in unphi_terms(tt):
-                stores[n.targets[0].attr] = strip_sites(fv.term_of(n.value))
-    run.check(stores.get("func") == ("attr", nodep, "func"), "C07.R3", vc, vc.node, "patch-back copies the callee", "patch-back does not copy node.func to the original call")
-    run.check(stores.get("keywords") == ("attr", nodep, "keywords"), "C07.R3", vc, vc.node, "patch-back copies the reduced keywords", "patch-back does not copy the reduced keyword list to the original call: a call that is the body of a nested lambda keeps keywords that were already moved to positional slots (j.pt(2, mode=1) -> j.pt(2, 5.0, 1, mode=1))", "orig_ast.keywords = node.keywords")
-    app = [c for c in calls_in(vc) if isinstance(c.func, ast.Attribute) and c.func.attr in ("append", "extend")]
-    ok_app = False
-    for c in app:
-        tt = strip_sites(fv.term_of(c.func.value))
-        ok_app = ok_app or any(a == ("attr", old, "args") for a in unphi_terms(tt))
-    run.check(ok_app, "C07.R3", vc, vc.node, "patch-back appends the new positional arguments", "patch-back does not add the filled arguments to the original call")
-    gv = [c for c in calls_in(vc) if isinstance(c.func, ast.Attribute) and c.func.attr == "generic_visit"]
-    run.check(len(gv) == 1, "C07.R3", vc, vc.node, "patch-back descends into nested calls", "patch-back does not traverse nested calls")
+    check_patch_back(run, ctx, m, mod, "C07.R3")
 
     # ---------------- R4
     pm = m.find_func("process_method_call", in_module=mod)
@@ -395,3 +369,58 @@ def _merge_order(fa, fi: FuncInfo, e: ast.AST, kt):
                     later.append((n.lineno, kind(n.args[0]) if n.args else "other"))
             return base + [k for _l, k in sorted(later)]
     return None
+
+
+def check_patch_back(run: Run, ctx, m, mod: str, rule: str) -> None:
+    """fixup_ast_from_modifications: what a processed copy of a call gained is copied back, unconditionally, to the
+    call it replaces (also used by C09.R6: a callback's rewrite of a call that is the body of a nested lambda)."""
+    fx_fn = m.find_func("fixup_ast_from_modifications", in_module=mod)
+    from ..lib import used_visitor
+
+    fixers = [c for c in [used_visitor(m, ctx, fx_fn)] if "visit_Call" in c.methods]
+    if len(fixers) != 1:
+        raise AnalysisError("fixup_ast_from_modifications no longer contains one visitor with visit_Call")
+    vc = fixers[0].methods["visit_Call"]
+    fv = ctx.analysis(vc)
+    nodep = ("param", vc.pos_params[1])
+    old = ("attr", nodep, "_old_ast")
+    stores = {}
+    for n in own_nodes(vc):
+        if isinstance(n, ast.Assign) and isinstance(n.targets[0], ast.Attribute) and fv.cfg.has_node(n):
+            tt = strip_sites(fv.term_of(n.targets[0].value))
+            tt = tt[1] if tt[0] == "upd" else tt
+            if old in unphi_terms(tt):
+                stores[n.targets[0].attr] = strip_sites(fv.term_of(n.value))
+    run.check(stores.get("func") == ("attr", nodep, "func"), rule, vc, vc.node, "patch-back copies the callee", "patch-back does not copy node.func to the original call")
+    run.check(stores.get("keywords") == ("attr", nodep, "keywords"), rule, vc, vc.node, "patch-back copies the reduced keywords", "patch-back does not copy the reduced keyword list to the original call: a call that is the body of a nested lambda keeps keywords that were already moved to positional slots (j.pt(2, mode=1) -> j.pt(2, 5.0, 1, mode=1))", "orig_ast.keywords = node.keywords")
+    app = [c for c in calls_in(vc) if isinstance(c.func, ast.Attribute) and c.func.attr in ("append", "extend")]
+    ok_app = False
+    for c in app:
+        tt = strip_sites(fv.term_of(c.func.value))
+        ok_app = ok_app or any(a == ("attr", old, "args") for a in unphi_terms(tt))
+    run.check(ok_app, rule, vc, vc.node, "patch-back appends the new positional arguments", "patch-back does not add the filled arguments to the original call")
+    gv = [c for c in calls_in(vc) if isinstance(c.func, ast.Attribute) and c.func.attr == "generic_visit"]
+    run.check(len(gv) == 1, rule, vc, vc.node, "patch-back descends into nested calls", "patch-back does not traverse nested calls")
+
+    # the copies are made whenever there is an original to patch: no further condition
+    for n in own_nodes(vc):
+        if isinstance(n, ast.Assign) and isinstance(n.targets[0], ast.Attribute) and n.targets[0].attr in ("func", "keywords") and fv.cfg.has_node(n):
+            tt = strip_sites(fv.term_of(n.targets[0].value))
+            tt = tt[1] if tt[0] == "upd" else tt
+            if old not in unphi_terms(tt):
+                continue
+            extra = []
+            for a, pol in Facts(fv, n, expand=False).atoms:
+                about_orig = False
+                for x in ast.walk(a):
+                    if isinstance(x, (ast.Name, ast.Attribute, ast.Call)) and fv.cfg.has_node(x):
+                        try:
+                            tx = strip_sites(fv.term_of(x))
+                        except AnalysisError:
+                            continue
+                        if old in unphi_terms(tx) or tx == old:
+                            about_orig = True
+                is_none_test = isinstance(a, ast.Compare) and len(a.ops) == 1 and isinstance(a.comparators[0], ast.Constant) and a.comparators[0].value is None and isinstance(a.left, ast.Name)
+                if not (about_orig and is_none_test):
+                    extra.append(ast.unparse(a))
+            run.check(not extra, rule, vc, n, f"the {n.targets[0].attr} of the processed call is copied back whenever there is an original", f"patch-back of .{n.targets[0].attr} happens only when {' and '.join(extra)[:140]}: other rewrites of a call that is the whole body of a nested lambda (a callback renaming the method, keywords moved to positional slots) are lost in the emitted query", f"orig_ast.{n.targets[0].attr} = node.{n.targets[0].attr} unconditionally")
